@@ -1,6 +1,7 @@
 package io
 
 import (
+	"errors"
 	zerr "github.com/DemoHn/Zn/pkg/error"
 	"io"
 	"unicode/utf8"
@@ -23,11 +24,17 @@ func readRune(r io.Reader, remains []byte, b int) ([]rune, []byte, error) {
 		return rs, []byte{}, zerr.ReadFileError(err, " <buffer> ")
 	}
 
+	atEOF := err == io.EOF || t == 0
 	buf := append(remains, p[:t]...)
 	for len(buf) > 0 {
 		ru, size := utf8.DecodeRune(buf)
-		if ru == utf8.RuneError {
-			return rs, buf, nil
+		// size <= 1 tells an undecodable byte from a genuine U+FFFD (size 3)
+		if ru == utf8.RuneError && size <= 1 {
+			// a character cut by the block boundary is completed by the next read
+			if !atEOF && !utf8.FullRune(buf) {
+				return rs, buf, nil
+			}
+			return rs, []byte{}, zerr.ReadFileError(errors.New("文件内容不是有效的 utf-8 编码"), " <buffer> ")
 		}
 
 		rs = append(rs, ru)
